@@ -719,6 +719,8 @@ func (np negProp) Exec(c Case) []string {
 				}
 			}
 			obs = append(obs, "ok")
+		case "pubapi":
+			obs = append(obs, negPubAPI())
 		case "apiconn":
 			if apiDom == "" {
 				apiDom = fmt.Sprintf("api%d.example", atomic.AddInt64(&apiCases, 1))
@@ -738,6 +740,91 @@ func (np negProp) Exec(c Case) []string {
 }
 
 var apiCases int64
+
+// negPubAPI drives the PUBLIC entry points - Client.Connect for the first connection, Client.Resume for the next ones,
+// as a StreamManager does - against scripted streams and counts the session-established announcements: exactly one per
+// call that returns nil, none for a call that returns an error.
+func negPubAPI() string {
+	hdr := "<?xml version='1.0'?><stream:stream xmlns='jabber:client' xmlns:stream='http://etherx.jabber.org/streams' version='1.0' id='s'>"
+	feat1 := "<stream:features><mechanisms xmlns='urn:ietf:params:xml:ns:xmpp-sasl'><mechanism>PLAIN</mechanism></mechanisms></stream:features>"
+	succ := "<success xmlns='urn:ietf:params:xml:ns:xmpp-sasl'/>"
+	feat2 := "<stream:features><bind xmlns='urn:ietf:params:xml:ns:xmpp-bind'/><sm xmlns='urn:xmpp:sm:3'/></stream:features>"
+	bind := "<iq type='result' id='x'><bind xmlns='urn:ietf:params:xml:ns:xmpp-bind'><jid>u@localhost/r</jid></bind></iq>"
+	enabled := "<enabled xmlns='urn:xmpp:sm:3' id='sm-pub' resume='true'/>"
+	resumed := "<resumed xmlns='urn:xmpp:sm:3' previd='sm-pub' h='0'/>"
+	mkStub := func(script string) *stubTransport {
+		st := newStub(strings.NewReader(script))
+		st.onConnect = func() (string, error) { return stanza.InitStream(st.GetDecoder()) }
+		return st
+	}
+	cfg := &xmpp.Config{Jid: "u@localhost/r", Credential: xmpp.Password("p"), Insecure: true, StreamManagementEnable: true,
+		KeepaliveInterval: time.Hour}
+	xmpp.VerifSetSMResume(cfg, true)
+	client, err := newStubClient(cfg, xmpp.NewRouter(), nil, mkStub(hdr+feat1+succ+feat2+bind+enabled))
+	if err != nil {
+		return "newclient-failed"
+	}
+	var mu sync.Mutex
+	est := 0
+	client.SetHandler(func(e xmpp.Event) error {
+		if xmpp.VerifEventState(e) == xmpp.StateSessionEstablished {
+			mu.Lock()
+			est++
+			mu.Unlock()
+		}
+		return nil
+	})
+	call := func(f func() error) string {
+		mu.Lock()
+		before := est
+		mu.Unlock()
+		errc := make(chan error, 1)
+		go func() {
+			defer func() {
+				if r := recover(); r != nil {
+					errc <- fmt.Errorf("panic: %v", r)
+				}
+			}()
+			errc <- f()
+		}()
+		var e error
+		select {
+		case e = <-errc:
+		case <-time.After(10 * time.Second):
+			return "hang"
+		}
+		time.Sleep(5 * time.Millisecond)
+		mu.Lock()
+		defer mu.Unlock()
+		r := "ok"
+		if e != nil {
+			r = "err"
+			if os.Getenv("VERIF_DEBUG") != "" {
+				fmt.Fprintln(os.Stderr, "pubapi:", e)
+			}
+		}
+		return fmt.Sprintf("%s:%d", r, est-before)
+	}
+	out := "connect=" + call(client.Connect)
+	time.Sleep(10 * time.Millisecond) // the receiver of that session meets the end of the scripted stream
+	// a real client keeps ONE transport object over its connections; here each scripted stream is a stub of its own,
+	// installed in the client and in the session the client keeps
+	swap := func(script string) {
+		st := mkStub(script)
+		xmpp.VerifSetTransport(client, st)
+		if client.Session != nil {
+			xmpp.VerifSessionTransport(client.Session, st)
+		}
+	}
+	swap(hdr + feat1 + succ + feat2 + resumed)
+	out += " resume=" + call(client.Resume)
+	time.Sleep(10 * time.Millisecond)
+	swap(hdr + feat1 + "<failure xmlns='urn:ietf:params:xml:ns:xmpp-sasl'><not-authorized/></failure>")
+	out += " resumefail=" + call(client.Resume)
+	swap(hdr + feat1 + succ + feat2 + resumed)
+	out += " resume2=" + call(client.Resume)
+	return out
+}
 
 func (np negProp) oneConn(client *xmpp.Client, cfg *xmpp.Config, xt *xmpp.XMPPTransport, m map[string]string, variant int, apiDom ...string) string {
 	ln, err := net.Listen("tcp", "127.0.0.1:0")
@@ -1021,6 +1108,11 @@ func (np negProp) Generate(rng *rand.Rand, tier string, st *Stats) []Case {
 	}
 	logger = false
 
+	// the public entry points announce the established session exactly when they succeed
+	if np.id == "C03" {
+		mk(true, true, []string{"pubapi"})
+		st.Inc("public_entry_points")
+	}
 	// two clients of one domain in one process, made by NewClient alone: the first with certificate verification
 	// switched off by its application, the second strict - and in the other order; the server's certificate comes from
 	// an unknown issuer. What the first client was allowed must not rub off on the second.
